@@ -26,6 +26,7 @@
 //!   R20 `M.entry(K).or_default().push(V)` (push_back / insert; or_insert_with(Vec::new) ..) -> `vx_entry_or_default_push(&mut M, K, V)` (prelude/entry.vrs)
 //!   R3  `opt.is_some_and(|x| B)` -> `match`      R21 `a |= b` / `a &= b` on bools -> `{ let t = b; a = a || t; }`
 //!   R23 calls to private helpers of the same impl/file that the unit does not put under contract (no generics, no return/?) are inlined
+//!   R22 `CHAIN.fold(INIT, |acc, x| B)` -> loop with an accumulator; `CHAIN.max()` / `.min()` -> loop (last max / first min)
 //!   R11 reference patterns in `for` / closure parameters / `Some(&x)` -> bind + deref
 //!   RS  pinned statement replacement   (request: replace_stmt)
 //!   RE  pinned expression replacement  (request: replace_expr)
@@ -410,6 +411,43 @@ impl<'a> Rw<'a> {
                 let lp = self.build_loop(&ch, Some(p), test)?;
                 self.bump("R1.any_all");
                 Some(parse_quote!({ let mut #f = #init; #lp #f }))
+            }
+            "fold" if mc.args.len() == 2 => {
+                // CHAIN.fold(INIT, |acc, x| B)  ->  { let mut acc = INIT; for x in CHAIN { acc = B; } acc }
+                let c = closure_of(&mc.args[1])?;
+                if c.inputs.len() != 2 {
+                    return None;
+                }
+                let accp = match &c.inputs[0] {
+                    Pat::Type(pt) => (*pt.pat).clone(),
+                    p => p.clone(),
+                };
+                let acc = pat_as_ident(&accp)?;
+                let xp = match &c.inputs[1] {
+                    Pat::Type(pt) => (*pt.pat).clone(),
+                    p => p.clone(),
+                };
+                let ch = parse_chain(&mc.receiver)?;
+                let init = &mc.args[0];
+                let b = &c.body;
+                let lp = self.build_loop(&ch, Some(xp), quote! { #acc = #b; })?;
+                self.bump("R22.fold");
+                Some(parse_quote!({ let mut #acc = #init; #lp #acc }))
+            }
+            "max" | "min" if mc.args.is_empty() => {
+                // Iterator::max returns the LAST of several equal maxima, Iterator::min the FIRST of several equal minima
+                let ch = parse_chain(&mc.receiver)?;
+                let m = self.fresh("m");
+                let x = self.fresh("x");
+                let xp: Pat = parse_quote!(#x);
+                let upd = if name == "max" {
+                    quote! { #m = match #m { None => Some(#x), Some(__vx_c) => Some(if #x >= __vx_c { #x } else { __vx_c }) }; }
+                } else {
+                    quote! { #m = match #m { None => Some(#x), Some(__vx_c) => Some(if #x < __vx_c { #x } else { __vx_c }) }; }
+                };
+                let lp = self.build_loop(&ch, Some(xp), upd)?;
+                self.bump("R22.max_min");
+                Some(parse_quote!({ let mut #m = None; #lp #m }))
             }
             "count" if mc.args.is_empty() => {
                 let ch = parse_chain(&mc.receiver)?;
